@@ -19,6 +19,7 @@ import (
 type validationResult struct {
 	Runs          int      `json:"native_runs"`
 	Agreed        int      `json:"agreed"`
+	NotComparable int      `json:"not_comparable_native_schedule_deviated"`
 	Disagreements []string `json:"disagreements"`
 	BuildS        float64  `json:"build_s"`
 	Builds        int      `json:"native_builds"`
@@ -91,11 +92,25 @@ func validateWitnesses(opt CheckOptions, spec *PropertySpec, tier int, runs []*H
 				extra = append(extra, "ZV_SCHED=guided")
 			}
 			out, _, timedOut := runNative(bin, w.Harness, path, 60*time.Second, extra...)
+			if len(w.MapOrders) > 0 && !g.md.sched {
+				// the native iteration order of a map cannot be steered; the model's values (clock
+				// instants in particular) fit the engine's order: re-run until that order occurs
+				for try := 0; try < 40 && !strings.Contains(out, "ZV: END"); try++ {
+					out, _, timedOut = runNative(bin, w.Harness, path, 60*time.Second, extra...)
+				}
+			}
 			res.Runs++
 			want := fmt.Sprintf("ZV: END asserts=%d nondet=%d choices=%d", w.Expect.Asserts, w.Expect.Nondet, w.Expect.Choices)
 			loose := g.md.sched || len(w.MapOrders) > 0
 			ok := false
 			switch {
+			case g.md.sched && strings.Contains(out, "ZV: GUIDE deviated") && !strings.Contains(out, "ZV: END"):
+				// the native decision points are not the engine's, so this run took another
+				// interleaving; the model's clock instants are assigned to reads by position and do
+				// not fit that interleaving: not comparable, neither agreement nor disagreement
+				res.Runs--
+				res.NotComparable++
+				continue
 			case timedOut:
 			case strings.Contains(out, "ASSERT-FAIL") || strings.Contains(out, "ASSUME-FALSE") || strings.Contains(out, "divergence") || strings.Contains(out, "panic:"):
 			case loose:
